@@ -362,6 +362,15 @@ def _fk_roundtrip(case, ctx):
         low = min(h, float(ws.T_rel[2, 3])) < 0.5 * model.lmin * (1 + 1e-6)     # where the (fixed) height clamp bit
         tag = "[raphson-gave-up ratio=%.6f rot=%.6f flat=%d] " % (
             model.spec["rt"] / model.spec["rb"], float(np.linalg.norm(u[3:])), int(low))
+    # signature of "FK returned ANOTHER root of the leg-length equations" (a different assembly mode): the pose is off
+    # but it reproduces the requested lengths (oracle distances at the pose the platform now holds) far inside the pose
+    # tolerance.  No solver-tolerance or bookkeeping error looks like that.
+    elif max(e_ret, e_top, e_state) > tol and e_len <= 0.3 * tol:
+        d_root = float(np.abs(sps.oracle_leg_lengths(model, Tb_now, Tt_now) - L).max())
+        if (d_root <= 0.3 * tol and _pose_err(model, top_ret, Tt_now) <= 0.3 * tol
+                and np.abs(Tb_now - T_bot).max() <= 1e-9 * max(1.0, big)):
+            tag = "[other-fk-root ratio=%.6f rot=%.6f dlen=%.2e] " % (
+                model.spec["rt"] / model.spec["rb"], float(np.linalg.norm(u[3:])), d_root)
     msg = "%sFK(mode %d, h=%.4g, tol=%.3g)" % (tag, mode, h, tol)
     if e_ret > tol:
         raise Violation("%s: returned pose is %.3g from the goal pose (largest displacement of a top-plate point)"
@@ -375,6 +384,7 @@ def _fk_roundtrip(case, ctx):
 
 
 _TAG = re.compile(r"\[raphson-gave-up ratio=([0-9.]+) rot=([0-9.]+) flat=(\d)\]")
+_TAG2 = re.compile(r"\[other-fk-root ratio=([0-9.]+) rot=([0-9.]+) dlen=([0-9.e+-]+)\]")
 
 
 def raphson_region(case, message):
@@ -383,16 +393,25 @@ def raphson_region(case, message):
     plate under a large tilt, runs out of iterations and FK silently returns the neutral pose.  Region: the solver gave
     up (signature above) AND top/bottom radius ratio <= 0.40 AND |rotation vector| >= 0.25 AND neither the neutral
     nor the goal height is below leg_ext_min/2 ('flat=0'; below it is the separate, fixed, height-clamp defect)."""
-    m = _TAG.search(message)
-    if not m:
-        return None
     spec = case["spec"]
     ratio = spec["rt"] / spec["rb"]
-    rot = float(m.group(2))
-    if rot > float(np.linalg.norm(np.asarray(case["u"], dtype=float)[3:])) + 1e-6:
+    umax = float(np.linalg.norm(np.asarray(case["u"], dtype=float)[3:])) + 1e-6
+    m = _TAG.search(message)
+    if m:
+        rot = float(m.group(2))
+        if rot <= umax and ratio <= 0.40 and rot >= 0.25 and m.group(3) == "0":
+            return "raphson_small_top_large_tilt"
         return None
-    if ratio <= 0.40 and rot >= 0.25 and m.group(3) == "0":
-        return "raphson_small_top_large_tilt"
+    m = _TAG2.search(message)
+    if m:
+        # proposed open known finding C09-fk-other-assembly-mode: with a small top plate the orientation is weakly
+        # determined by the legs; under a large tilt a second exact solution of the leg-length equations lies close by
+        # (two roots 0.015 apart at the box corner of the ratio-0.3 geometry) or is reached by fsolve, and the local
+        # solvers started from neutral return that one.  Region: the returned pose is an exact root (signature above)
+        # AND ratio <= 0.40 AND |rotation vector| >= 0.25.
+        rot = float(m.group(2))
+        if rot <= umax and ratio <= 0.40 and rot >= 0.25:
+            return "fk_other_root_small_top_large_tilt"
     return None
 
 
